@@ -85,7 +85,29 @@ fn one_case(sink: &mut Sink, rng: &mut Rng, max_depth: u8, cells: &[VC], from: u
         } else {
           2 * cells.iter().map(|c| (c.val as u128) >> (2 * (max_depth - c.depth) as u32)).max().unwrap_or(0)
         };
-        let ok = if strict { m <= target && target - m <= piece } else { m >= target && m - target <= piece };
+        // EXACT bound: the boundary pieces are the pieces strictly cut by a threshold — the finest sub-cell of the cell
+        // the threshold falls in when splitting is allowed, that whole cell otherwise; a threshold lying exactly on a
+        // (sub-)cell boundary cuts nothing.  The enclosed value differs from the target by LESS than their sum
+        // (hence not at all when nothing is cut).
+        let exact_bound: u128 = {
+          let mut sorted: Vec<&VC> = cells.iter().collect();
+          let key = |c: &VC| (c.val as u128) << (2 * c.depth as u32);
+          if asc { sorted.sort_by_key(|c| key(c)); } else { sorted.sort_by_key(|c| std::cmp::Reverse(key(c))); }
+          let mut b = 0u128;
+          for thr in [from, to] {
+            let mut acc = 0u64;
+            for c in &sorted {
+              if acc < thr && thr < acc + c.val {
+                let unit = if no_split { c.val } else { c.val >> (2 * (max_depth - c.depth) as u32) };
+                if unit > 0 && (thr - acc) % unit != 0 { b += unit as u128; }
+              }
+              acc += c.val;
+            }
+          }
+          b
+        };
+        let _ = piece;
+        let ok = if strict { m <= target && target - m < exact_bound.max(1) } else { m >= target && m - target < exact_bound.max(1) };
         // both thresholds inside one and the same cell is a documented limitation (see DESIGN.md): classify
         let mut sorted: Vec<&VC> = cells.iter().collect();
         let key = |c: &VC| (c.val as u128) << (2 * c.depth as u32);
@@ -153,6 +175,22 @@ pub fn run(sink: &mut Sink, rng: &mut Rng, thorough: bool) {
     }
     thr.push(rng.below(total + 1));
     thr.push(rng.below(total + 1));
+    // in BOTH density orders: every boundary of a quarter and of a finest piece of every cell (a threshold lying
+    // exactly on a sub-cell boundary cuts nothing: the selection must then be exact in both modes), and the middle
+    // of the first finest piece
+    for ascending in [true, false] {
+      let mut sorted: Vec<&VC> = cells.iter().collect();
+      let key = |c: &VC| (c.val as u128) << (2 * c.depth as u32);
+      if ascending { sorted.sort_by_key(|c| key(c)); } else { sorted.sort_by_key(|c| std::cmp::Reverse(key(c))); }
+      let mut acc = 0u64;
+      for c in &sorted {
+        let fin = c.val >> (2 * (max_depth - c.depth) as u32);
+        for k in 0..=4u64 { thr.push(acc + k * (c.val / 4)); }
+        for k in [1u64, 2, 3, 5, 7] { if k * fin <= c.val { thr.push(acc + k * fin); } }
+        if fin >= 2 { thr.push(acc + fin / 2); }
+        acc += c.val;
+      }
+    }
     thr.sort_unstable();
     thr.dedup();
     let pairs = if thorough { 10 } else { 6 };
